@@ -526,6 +526,7 @@ class Interp:
         if isinstance(it, VSeq):
             # index ghost
             ordinal = self.loop_ordinals[id(node)]
+            self.emit(st, "for.iter", node, seq=it, ordinal=ordinal, src=ast.unparse(node.iter))
             idx_name = f"$i{ordinal}"
             st.env[idx_name] = VInt(0)
             seq = it
@@ -537,6 +538,7 @@ class Interp:
                     eng.assume(st, i.t >= 0)
                     x = wrap(seq.elem, seq.t[i.t])
                     if isinstance(x, VRef):
+                        eng.assume(st, x.t != 0)  # lists of objects never hold None (list encoding)
                         eng.assume_alive(st, x)
                     self.assign(st, node.target, x)
                     st.env[idx_name] = VInt(i.t + 1)
@@ -618,6 +620,10 @@ class Interp:
         try:
             self.exec_stmts(st, node.body)
         except BreakSig:
+            bh = getattr(c, "on_loop_break", None)
+            if bh is not None and self.depth == 0:
+                for label, props, goal in bh(self.ctx, ordinal) or []:
+                    eng.oblige(st, f"loop{ordinal}:{label}", goal, props=props, kind="inv-keep")
             return
         except ContinueSig:
             pass
@@ -1128,9 +1134,12 @@ class Interp:
 
     def fire_callsite(self, st, ev: Event):
         c = self.contract
-        if c is None:
+        if c is None or self.depth != 0 and False:
             return
         eng = self.eng
+        names = getattr(c, "callsite_events", None)
+        if names is not None and ev.name not in names:
+            return
         for label, props, goal in c.callsite(self.ctx, ev) or []:
             key = (eng.canon_func_key(self.fi.key), label)
             eng.oblige(st, label, goal, props=props, kind="call-pre", extra={"site": ev.site, "event": ev.name})
